@@ -150,6 +150,15 @@ def handle : Handler := fun op args impl =>
           let len ← par.toNat?
           if len < 1 || len > L then none else
           some (key (List.range L), enough (Float.ofNat len / Float.ofNat L) L)
+        | "rogue" | "shufflesites" | "addgaps" | "mutate" => do
+          -- every column can be touched: with proportion `p` of the `L` columns chosen uniformly per run (and a
+          -- chosen cell changing with probability at least 1/2 for rows of distinct residues), a given column stays
+          -- untouched in one run with probability at most 1 - (⌊pL⌋ - 1) / (2L)
+          let f ← fl par
+          if f ≤ 0 || f > 1 then none else
+          let k := fracOf f L
+          if k < 2 || n < 2 then none else
+          some (key (List.range L), enough ((Float.ofNat (k - 1)) / (2 * Float.ofNat L)) L)
         | "shuffle" =>
           if n > 4 then none else
           let ps := (List.range n).foldl perms [[]]
